@@ -48,9 +48,10 @@ def main(argv=None):
     seed = int(os.environ.get('VERIF_SEED', '0') or 0)
     props = PROPS if a.prop == 'all' else [a.prop]
     worst = 0
+    shared_src = SourceSet(a.repo) if a.prop == 'all' and not a.sub else None
     for p in props:
         try:
-            src = SourceSet(a.repo)
+            src = shared_src or SourceSet(a.repo)
             for spec in a.sub:
                 rel, old, new = spec.split('@@')
                 old = old.encode().decode('unicode_escape'); new = new.encode().decode('unicode_escape')
